@@ -38,6 +38,7 @@ type emitter struct {
 	tailIndex  *Poly
 	idxFirst   string
 	resultRet  bool
+	appendAcc  *ssa.Phi // result grown by append (no indexed stores)
 }
 
 // canonical rendering of a term independent of the enclosing function (params by index, loop vars by role)
@@ -65,8 +66,22 @@ func c13Render(t *Term, idx *Term, fn *ssa.Function) string {
 	return t.Op + ":" + t.Sym + "(" + strings.Join(as, ",") + ")"
 }
 
+// c13Shift: when the loop's real index is lv + k (rotated range loops), polynomials are rewritten with lv = IDX - k.
+var c13ShiftKey string
+var c13ShiftK int64
+
 func c13Poly(p *Poly, idx *Term, fn *ssa.Function) string {
 	// render a polynomial with atoms rendered position-free
+	if idx != nil && c13ShiftKey != "" && c13ShiftK != 0 && idx.Key() == c13ShiftKey {
+		// substitute lv := lv - k (degree-1 occurrences)
+		adj := p.clone()
+		for k, cf := range p.M {
+			if k == c13ShiftKey {
+				adj.M[""] -= cf * c13ShiftK
+			}
+		}
+		p = adj.norm()
+	}
 	q := newPoly()
 	for k, c := range p.M {
 		if k == "" {
@@ -137,8 +152,45 @@ func analyseEmitter(c *Ctx, rule string, fi *FuncInfo, callbackParam int) *emitt
 		res   *Term
 		pos   int
 	}
-	emissionsOf := func(p *Path, from, to int) []emission {
+	var emissionsOf func(p *Path, from, to int) []emission
+	emissionsOf = func(p *Path, from, to int) []emission {
 		var out []emission
+		if em.appendAcc != nil && p.End == EndLoopBack && to == len(p.Events) {
+			lv := li.LV[em.appendAcc]
+			if nx := p.Next[em.appendAcc]; nx != nil && nx.Key() != lv.Key() {
+				if v, single := appendedElem(p, lv, nx); single {
+					piece := []*Term{v}
+					// composite literal elements
+					var cell *Term
+					v.Walk(func(x *Term) bool {
+						if x.Op == "alloc" && cell == nil {
+							cell = x
+						}
+						return true
+					})
+					if cell != nil && v.Op != "slice" {
+						var elems []*Term
+						for k := 0; k < 8; k++ {
+							var got *Term
+							for j := from; j < to; j++ {
+								f := &p.Events[j]
+								if f.Kind == "store" && f.Addr.Op == "iaddr" && f.Addr.Args[0].Key() == cell.Key() && f.Addr.Args[1].IsConst(fmt.Sprint(k)) {
+									got = f.Val
+								}
+							}
+							if got == nil {
+								break
+							}
+							elems = append(elems, got)
+						}
+						if len(elems) > 0 {
+							piece = elems
+						}
+					}
+					return []emission{{piece: piece, pos: to}}
+				}
+			}
+		}
 		for i := from; i < to && i < len(p.Events); i++ {
 			e := &p.Events[i]
 			if callbackParam >= 0 {
@@ -185,6 +237,20 @@ func analyseEmitter(c *Ctx, rule string, fi *FuncInfo, callbackParam int) *emitt
 		return em
 	}
 	back := li.Back[0]
+	// a result grown by append instead of indexed stores
+	if callbackParam < 0 && len(emissionsOf(back, back.LoopAt[li.Hdr], len(back.Events))) == 0 {
+		for _, phi := range li.Phis {
+			lv := li.LV[phi]
+			nx := back.Next[phi]
+			if nx == nil || nx.Key() == lv.Key() {
+				continue
+			}
+			if v, single := appendedElem(back, lv, nx); single && isFreshAccInit(li.Init[phi]) {
+				em.appendAcc = phi
+				_ = v
+			}
+		}
+	}
 	// several back paths are fine when they differ only in what was decided before the loop
 	for _, other := range li.Back[1:] {
 		a := emissionsOf(back, back.LoopAt[li.Hdr], len(back.Events))
@@ -236,7 +302,13 @@ func analyseEmitter(c *Ctx, rule string, fi *FuncInfo, callbackParam int) *emitt
 		return em
 	}
 	idx := li.LV[pieceLV]
-	em.loopFirst = c13Poly(ToPoly(li.Init[pieceLV]), nil, fn)
+	c13ShiftKey, c13ShiftK = "", 0
+	if ct := counted(li); ct != nil && ct.Phi == pieceLV {
+		if k, isC := ToPoly(ct.Idx).Add(ToPoly(idx), -1).IsConst(); isC && k != 0 {
+			c13ShiftKey, c13ShiftK = idx.Key(), k
+		}
+	}
+	em.loopFirst = c13Poly(ToPoly(li.Init[pieceLV]).Add(polyConst(c13ShiftK), 1), nil, fn)
 	em.loopStep = c13Poly(ToPoly(back.Next[pieceLV]).Add(ToPoly(idx), -1), nil, fn)
 	for _, pc := range bodyEm[0].piece {
 		em.pieces = append(em.pieces, c13PieceString(pc, idx, fn))
@@ -262,16 +334,17 @@ func analyseEmitter(c *Ctx, rule string, fi *FuncInfo, callbackParam int) *emitt
 		// the written index must be its own induction variable starting at 0 stepping 1, or the piece index itself
 		w := bodyEm[0].index
 		var wPhi *ssa.Phi
+		var wOff int64
 		for _, phi := range li.Phis {
-			if w.Key() == li.LV[phi].Key() {
-				wPhi = phi
+			if k, isC := ToPoly(w).Add(ToPoly(li.LV[phi]), -1).IsConst(); isC {
+				wPhi, wOff = phi, k
 			}
 		}
 		if wPhi == nil {
-			fail("the result index written in the loop is not a loop variable: %s", w)
+			fail("the result index written in the loop is not a loop variable (plus a constant): %s", w)
 			return em
 		}
-		em.idxFirst = c13Poly(ToPoly(li.Init[wPhi]), nil, fn)
+		em.idxFirst = c13Poly(ToPoly(li.Init[wPhi]).Add(polyConst(wOff), 1), nil, fn)
 		em.loopWrites = c13Poly(ToPoly(back.Next[wPhi]).Add(ToPoly(li.LV[wPhi]), -1), nil, fn)
 		em.allocLen = ToPoly(bodyEm[0].res.Args[0])
 	}
@@ -331,7 +404,13 @@ func analyseEmitter(c *Ctx, rule string, fi *FuncInfo, callbackParam int) *emitt
 		switch len(tail) {
 		case 0:
 			if callbackParam < 0 {
-				if len(p.Rets) != 1 || p.Rets[0].Op != "mkslice" {
+				if em.appendAcc != nil {
+					if len(p.Rets) != 1 || p.Rets[0].Key() != li.LV[em.appendAcc].Key() {
+						fail("does not return the appended result")
+					} else {
+						em.resultRet = true
+					}
+				} else if len(p.Rets) != 1 || p.Rets[0].Op != "mkslice" {
 					fail("does not return the result slice")
 				} else {
 					em.resultRet = true
@@ -484,7 +563,7 @@ func runC13(c *Ctx) {
 			return "the tail is not emitted exactly when (len/size)*size != len: " + em.tailGuard
 		}
 		// empty guard
-		if len(em.guardNone) != 1 || !(strings.Contains(em.guardNone[0], "builtin:len(p0) = 0")) {
+		if len(em.guardNone) != 1 || !(strings.Contains(em.guardNone[0], "builtin:len(p0) = 0") || em.guardNone[0] == "1· + -1·builtin:len(p0) > 0") {
 			return "no 'empty input emits nothing' row: " + strings.Join(em.guardNone, "|")
 		}
 		return ""
@@ -537,42 +616,18 @@ func runC13(c *Ctx) {
 		ok := len(em.pieces) == 2 && em.pieces[0] == "p0[1·IDX]" && em.pieces[1] == "p0[1· + 1·IDX]"
 		R.Decide(ok, "partition-shape", "slices.PairsFunc", "pair", c.pos(em.fi), "(slice[i], slice[i+1])", "the pair is not (slice[i], slice[i+1]): "+strings.Join(em.pieces, ","))
 	}
-	if fi := c.P.Func("slices.Pairs"); fi != nil {
-		// the stored composite: a [2]E holding slice[i], slice[i+1]
-		ps := c.An.PathsOf(fi.SSA).Paths
-		ok := false
-		for _, p := range ps {
-			if p.End != EndLoopBack {
-				continue
-			}
-			var lv *Term
-			for _, lvs := range p.LoopIn {
-				for _, x := range lvs {
-					lv = x
-				}
-			}
-			var e0, e1 bool
-			for i := range p.Events {
-				e := &p.Events[i]
-				if e.Kind == "store" && e.Addr.Op == "iaddr" && e.Addr.Args[0].Op == "alloc" && lv != nil {
-					s := paramOf(fi, 0)
-					if e.Addr.Args[1].IsConst("0") && isElemOf(e.Val, s, lv) {
-						e0 = true
-					}
-					one := &Term{Op: "bin", Sym: "+", Args: []*Term{lv, intConst(1)}, Typ: lv.Typ}
-					if e.Addr.Args[1].IsConst("1") && isElemOf(e.Val, s, one) {
-						e1 = true
-					}
-				}
-			}
-			ok = e0 && e1
-		}
-		R.Decide(ok, "partition-shape", "slices.Pairs", "pair", c.pos(fi), "[2]E{slice[i], slice[i+1]}", "the stored pair is not {slice[i], slice[i+1]}")
+	if em := ems["slices.Pairs"]; em != nil && em.ok {
+		ok := len(em.pieces) == 2 && em.pieces[0] == "p0[1·IDX]" && em.pieces[1] == "p0[1· + 1·IDX]"
+		R.Decide(ok, "partition-shape", "slices.Pairs", "pair", c.pos(em.fi), "[2]E{slice[i], slice[i+1]}", "the stored pair is not {slice[i], slice[i+1]}: "+strings.Join(em.pieces, ","))
 	}
 	// ---- alloc-equals-writes
 	for _, name := range []string{"slices.Chunk", "slices.Windowed", "slices.Pairs"} {
 		em := ems[name]
 		if em == nil {
+			continue
+		}
+		if em.ok && em.appendAcc != nil {
+			R.Held("alloc-equals-writes", name, "count", c.pos(em.fi), "the result starts empty and grows by exactly one element per emitted piece (append)")
 			continue
 		}
 		if !em.ok || em.allocLen == nil {
